@@ -136,3 +136,36 @@ class ChoiceSeam:
     def __exit__(self, *exc):
         np.random.choice = self._orig
         return False
+
+
+_CAL_CACHE = {}
+
+
+def memo_calendars():
+    """Memoise pandas_market_calendars.get_calendar(name).holidays() (a pure function of
+    the calendar name, third-party code) to cut ~0.45 s from every TradingEnvXY build."""
+    import pandas_market_calendars as pmc
+    if getattr(pmc, "_mcx_memo", False):
+        return
+    orig = pmc.get_calendar
+
+    class _Proxy:
+        def __init__(self, cal):
+            self._cal = cal
+            self._hol = None
+
+        def holidays(self):
+            if self._hol is None:
+                self._hol = self._cal.holidays()
+            return self._hol
+
+        def __getattr__(self, name):
+            return getattr(self._cal, name)
+
+    def get_calendar(name, *a, **k):
+        key = (name, a, tuple(sorted(k.items())))
+        if key not in _CAL_CACHE:
+            _CAL_CACHE[key] = _Proxy(orig(name, *a, **k))
+        return _CAL_CACHE[key]
+    pmc.get_calendar = get_calendar
+    pmc._mcx_memo = True
